@@ -16,14 +16,16 @@ func c14Doc(rt *rapid.T) []byte {
 	case 0, 1:
 		return gen.NestSpec{Depth: rapid.IntRange(8, 90).Draw(rt, "depth"), Pattern: gen.NestPatterns[rapid.IntRange(0, len(gen.NestPatterns)-1).Draw(rt, "pat")],
 			Close: rapid.IntRange(0, 90).Draw(rt, "close"), Bottom: []string{"", "1", `"x"`, "]"}[rapid.IntRange(0, 3).Draw(rt, "bottom")]}.Build()
-	case 2:
-		d := []int{9999, 10000, 10001, 10002}[rapid.IntRange(0, 3).Draw(rt, "limitdepth")]
+	case 2, 3:
+		// around and beyond the limit: the handler machines have no depth guard of their own, so
+		// a traversal can grow a shared Buffer's stack past what the skip functions ever would
+		d := []int{9999, 10000, 10001, 10002, 10003, 10004, 10500, 12000}[rapid.IntRange(0, 7).Draw(rt, "limitdepth")]
 		cl := d
 		if rapid.IntRange(0, 2).Draw(rt, "unclosed") == 0 {
 			cl = rapid.IntRange(0, d).Draw(rt, "close")
 		}
 		return gen.NestSpec{Depth: d, Pattern: gen.NestPatterns[rapid.IntRange(0, len(gen.NestPatterns)-1).Draw(rt, "pat")], Close: cl, Bottom: "1"}.Build()
-	case 3, 4, 5:
+	case 4, 5, 6:
 		kind := byte("[{"[rapid.IntRange(0, 1).Draw(rt, "kind")])
 		b := gen.Container(rt, nil, gen.AnyProfile(rt), kind, rapid.IntRange(1, 5).Draw(rt, "depth"))
 		if rapid.IntRange(0, 2).Draw(rt, "mut?") == 0 {
